@@ -189,7 +189,7 @@ def get_compact_representation(
             _row.append(_cor_mat_row_str)
             _data.append(_row)
 
-        _representation = tabulate.tabulate(tabular_data=_data, headers=_headers, tablefmt=table_format)
+        _representation = tabulate.tabulate(tabular_data=_data, headers=_headers, tablefmt=table_format, floatfmt=".15g")
         _representation = _representation.replace("\n", "\n" + line_prefix)
         _representation = line_prefix + _representation + "\n"
     except ImportError:
